@@ -350,3 +350,43 @@ Proof.
     + now apply (SU_get pq f1).
     + apply (SU_child _ s Sl). apply in_or_app. right. now left.
 Qed.
+
+(* ------------------------------------------------------------------ *)
+(* re-labelling one node *)
+Lemma set_info_at_spec n g f q0 i l : node_loc n f = Some (q0, i, l) ->
+  exists a s b, l = a ++ s :: b /\ length a = i /\ rid s = n /\ get_ch q0 f = Some l /\
+                set_info_at n g f = upd_ch q0 (fun _ => a ++ T n (g (rinfo s)) (rch s) :: b) f.
+Proof.
+  intros E. destruct (node_loc_spec n f q0 i l E) as (G & s & N & R & _).
+  destruct (nth_error_split l i N) as (a & b & -> & <-). exists a, s, b. repeat split; auto.
+  unfold set_info_at. rewrite E. rewrite (upd_ch_const q0 f _ _ G), upd_nth_split. destruct s as [id inf ch]. cbn in R. now subst.
+Qed.
+
+Lemma set_info_at_none n g f : node_loc n f = None -> set_info_at n g f = f.
+Proof. unfold set_info_at. now intros ->. Qed.
+
+(* SUB-STEP: change the payload of one node, data_id unchanged *)
+Lemma WF_relabel_same t q0 a s b inf' :
+  WF t -> get_ch q0 (forest_of t) = Some (a ++ s :: b) -> i_did inf' = rdid s ->
+  WF (set_forest t (upd_ch q0 (fun _ => a ++ T (rid s) inf' (rch s) :: b) (forest_of t)))
+  /\ ids (upd_ch q0 (fun _ => a ++ T (rid s) inf' (rch s) :: b) (forest_of t)) = ids (forest_of t).
+Proof.
+  intros H G Ed. set (f := forest_of t) in *. set (s' := T (rid s) inf' (rch s)). set (f' := upd_ch q0 (fun _ => a ++ s' :: b) f).
+  destruct (ids_context q0 f _ G) as (A & B & E1 & E2). specialize (E2 (fun _ => a ++ s' :: b)). fold f' in E2. cbn beta in E2.
+  destruct (keys_context q0 f _ G) as (A' & B' & K1 & K2). specialize (K2 (fun _ => a ++ s' :: b)). fold f' in K2. cbn beta in K2.
+  assert (Ei : ids f' = ids f). { rewrite E1, E2, !ids_app, !ids_cons. reflexivity. }
+  assert (Ek : keys f' = keys f).
+  { rewrite K1, K2, !keys_app, !keys_cons.
+    replace (rdid s') with (rdid s) by (unfold s', rdid; cbn [rinfo]; now rewrite Ed). reflexivity. }
+  split; [|exact Ei].
+  destruct H as [H1 H2 H3 H4 H5 H6 H7]. fold f in H1, H2, H3, H6, H7.
+  eapply WF_intro; [reflexivity| | | | |]; rewrite ?Ei, ?Ek; auto; [now repeat split|].
+  unfold f'. apply (SU_upd q0 f _ _ H7 G). assert (Sl := SU_get q0 f _ H7 G).
+  constructor.
+  - apply SU_top in Sl. rewrite map_app in *. cbn [map] in *.
+    replace (rdid s') with (rdid s) by (unfold s', rdid; cbn [rinfo]; now rewrite Ed). exact Sl.
+  - intros x Hx. apply in_app_or in Hx. destruct Hx as [Hx|[<-|Hx]].
+    + apply (SU_child _ x Sl). apply in_or_app. now left.
+    + cbn [rch]. apply (SU_child _ s Sl). apply in_or_app. right. now left.
+    + apply (SU_child _ x Sl). apply in_or_app. right. now right.
+Qed.
